@@ -12,6 +12,8 @@
 //   init <k> {<index> <value> <con>}*k       con : N | I <lo|*> <hi|*> <inclLo> <inclHi>
 //   step | optimize
 //   setmax <n>                                setMaximumNumberOfEvaluations(n) on the optimiser that exists
+//   clone                                     the optimiser is replaced by its clone() (the step listener is attached again:
+//                                             copies do not keep listeners)
 //   hint <cond> <inside> <convex> <full> <minimiser_i>*   what the generator knows about the objective (ignored here)
 //   bracket <out|in> <a> <b> <nint> <index> <value> <con> <auto>
 //
@@ -264,6 +266,12 @@ struct Machine {
     if (!opt) return "bad-op";
     // after an exception the optimiser may be half built (step() does not check isInitialized_): it is left alone
     if (dead && (o == "init" || o == "step" || o == "optimize")) return "exc:dead";
+    if (o == "clone") {
+      std::shared_ptr<OptimizerInterface> c(opt->clone());
+      c->addOptimizationListener(rec);
+      opt = c;
+      return "ok";
+    }
     if (o == "setmax") { opt->setMaximumNumberOfEvaluations((unsigned int)toU(t.at(i++))); return "ok"; }
     if (o == "init") {
       size_t k = toU(t.at(i++));
